@@ -1,0 +1,77 @@
+//! Verification hooks. Only compiled with `--cfg remoc_verif`.
+#![allow(missing_docs)]
+
+use std::{
+    future::Future,
+    pin::Pin,
+    sync::{
+        Mutex,
+        atomic::{AtomicU64, Ordering},
+    },
+    task::{Context, Poll},
+};
+
+/// Event field.
+pub type Field = (&'static str, u64);
+type Sink = Box<dyn Fn(&'static str, &[Field]) + Send + Sync>;
+type Policy = Box<dyn Fn() -> bool + Send + Sync>;
+
+static SINK: Mutex<Option<Sink>> = Mutex::new(None);
+static POLICY: Mutex<Option<Policy>> = Mutex::new(None);
+static NEXT_ID: AtomicU64 = AtomicU64::new(1);
+
+pub fn set_sink(sink: Option<Sink>) {
+    *SINK.lock().unwrap() = sink;
+}
+
+pub fn set_spawn_policy(policy: Option<Policy>) {
+    *POLICY.lock().unwrap() = policy;
+}
+
+pub fn next_id() -> u64 {
+    NEXT_ID.fetch_add(1, Ordering::Relaxed)
+}
+
+pub fn emit(name: &'static str, fields: &[Field]) {
+    if let Some(sink) = &*SINK.lock().unwrap() {
+        sink(name, fields);
+    }
+}
+
+/// Poll-deferral adapter for internally spawned tasks.
+pub struct Deferred<F> {
+    inner: Pin<Box<F>>,
+    streak: u8,
+}
+
+impl<F> Deferred<F> {
+    pub fn new(inner: F) -> Self {
+        Self { inner: Box::pin(inner), streak: 0 }
+    }
+}
+
+impl<F: Future> Future for Deferred<F> {
+    type Output = F::Output;
+    fn poll(mut self: Pin<&mut Self>, cx: &mut Context<'_>) -> Poll<F::Output> {
+        let defer = match &*POLICY.lock().unwrap() {
+            Some(policy) if self.streak < 4 => policy(),
+            _ => false,
+        };
+        if defer {
+            self.streak += 1;
+            cx.waker().wake_by_ref();
+            return Poll::Pending;
+        }
+        self.streak = 0;
+        self.inner.as_mut().poll(cx)
+    }
+}
+
+/// Spawn with deferral adapter.
+pub fn spawn<F>(future: F) -> tokio::task::JoinHandle<F::Output>
+where
+    F: Future + Send + 'static,
+    F::Output: Send + 'static,
+{
+    tokio::spawn(Deferred::new(future))
+}
